@@ -72,7 +72,9 @@ class CB:
             w.faults_fired += 1
             raise w.fault_exc('watcher call %d' % w.ncalls)
         act = self.spec.get('action')
-        if act:
+        if act and act[0] == 'unwatch':
+            (w.o if self.spec['target'] == 'inst' else w.cls).param.unwatch(w.handles['w%d' % act[1]])
+        elif act:
             setattr(target, act[1], w.vals[act[2]])
         w.log.append(('ret', self.spec['id']))
 
@@ -111,7 +113,7 @@ class World:
             self.register(s)
             m = dict(s)
             m['active'] = True
-            if m['action']:
+            if m['action'] and m['action'][0] == 'set':
                 m['action'] = ['set', m['action'][1], self.vals[m['action'][2]]]
             self.model.W.append(m)
 
